@@ -734,11 +734,21 @@ impl Indexable for ast::FieldLet {
         ctx.symbol_map.add_reference(field_id, reference_loc);
 
         let value_typ = self.value()?.index(ctx)?;
-        if !value_typ.can_be_casted_to(&ctx.symbol_map, &field_typ) {
+        // `let f{3-0} = v;` assigns the selected bits only: the value has to fit the selection,
+        // whatever the width of the field is
+        let expected_typ = match self.range_list() {
+            Some(range_list) => match bit_count(&range_list) {
+                Some(1) => Type::Bit,
+                Some(n) => Type::Bits(n),
+                None => return None,
+            },
+            None => field_typ.clone(),
+        };
+        if !value_typ.can_be_casted_to(&ctx.symbol_map, &expected_typ) {
             ctx.error(
                 self.value()?.syntax().text_range(),
                 format!(
-                    "field '{name}' of type '{field_typ}' is incompatible with type '{value_typ}'",
+                    "field '{name}' of type '{expected_typ}' is incompatible with type '{value_typ}'",
                 ),
             );
         }
